@@ -50,7 +50,7 @@ impl Prop for C15 {
 		]
 	}
 	fn expected_probes(&self) -> Vec<&'static str> {
-		vec!["automatic_flush_on_threshold", "caller_failure_err_fired", "caller_failure_wrong_type_fired", "caller_failure_missing_field_fired", "caller_failure_duplicate_field_fired", "caller_failure_abandoned_sequence_fired", "drop_with_open_block", "failing_value_first_of_block", "failing_value_mid_or_last_of_block", "failure_inside_nested_record_depth_ge_2", "finish_block_on_empty_block", "push_crossing_threshold"]
+		vec!["long_history", "automatic_flush_on_threshold", "caller_failure_err_fired", "caller_failure_wrong_type_fired", "caller_failure_missing_field_fired", "caller_failure_duplicate_field_fired", "caller_failure_abandoned_sequence_fired", "drop_with_open_block", "failing_value_first_of_block", "failing_value_mid_or_last_of_block", "failure_inside_nested_record_depth_ge_2", "finish_block_on_empty_block", "push_crossing_threshold"]
 	}
 	fn budget(&self, tier: Tier) -> (u64, u64) {
 		match tier {
